@@ -12,6 +12,12 @@ def IdsAbove : Nat → List Tx → Prop
   | _, [] => True
   | lo, tx :: rest => lo < tx.id ∧ IdsAbove tx.id rest
 
+/-- A grouping of the log the indexer loop can produce with `IndexOptions.MaxBulkSize = B`: every call of
+`indexSince` gathers at least one and at most `sp.maxBulk B` transactions (how many of the allowed ones
+depends on timing: `AdaptiveBulkSize`, `BulkPreparationTimeout`, the memory semaphore). -/
+def BulksOf (sp : Spec) (B : Nat) (bulks : List (List Tx)) : Prop :=
+  ∀ b ∈ bulks, b ≠ [] ∧ b.length ≤ sp.maxBulk B
+
 /-- A transaction the indexer can digest (what `indexSince` needs in order not to fail, and what
 `BulkInsert` needs in order not to drop a version):
  * every produced key is non-empty and carries the target prefix (the mapper honours `TargetPrefix`);
